@@ -18,10 +18,14 @@ def content_key(data):
     return "%016x#%d" % (fnv(data), len(data))
 
 
-def make_info(rng, idx, paths, marker=None, malformed=False, agree_starts=False, branch_only=0.0):
+def make_info(rng, idx, paths, marker=None, malformed=False, agree_starts=False, branch_only=0.0, repeat_sf=0.3):
     """a small unique lcov file about 1-2 of the shared source paths"""
     out = "TN:item%d%s\n" % (idx, (" " + marker) if marker else "")
-    for p in rng.sample(paths, rng.randrange(1, min(3, len(paths)) + 1)):
+    chosen = rng.sample(paths, rng.randrange(1, min(3, len(paths)) + 1))
+    if rng.random() < repeat_sf:
+        # the same file described by two records of one tracefile (legal lcov: e.g. two test names)
+        chosen.append(rng.choice(chosen))
+    for p in chosen:
         out += "SF:%s\n" % p
         if rng.random() < branch_only:
             # a record that carries branch data only (no DA, no FN): legal lcov
